@@ -126,7 +126,13 @@ def fault_goal_jobs(run, kinds, W=16):
              "args": ["replay", "--seed", str(run.seed), os.path.join(vlib.VERIF, "corpus", "%s_w%d_faultgoals.ndjson" % (k, W))]} for k in kinds]
 
 
-def generic_check(run, models_q, models_t, jobs_q, jobs_t, rule, corpus=False, fault_corpus=False, goals=False, sgoals=False, tgoals=False, egoals=(), count=False, fgoals=()):
+def par_goal_jobs(run, kinds, W=16):
+    """rayon operations at fixed points (complete / short-circuiting / panicking consumers, par_extend with repeated keys)."""
+    return [{"name": "%spargoals_w%d" % (k, W), "backend": "sse2" if W == 16 else "generic",
+             "args": ["replay", "--seed", str(run.seed), os.path.join(vlib.VERIF, "corpus", "%s_w%d_pargoals.ndjson" % (k, W))]} for k in kinds]
+
+
+def generic_check(run, models_q, models_t, jobs_q, jobs_t, rule, corpus=False, fault_corpus=False, goals=False, sgoals=False, tgoals=False, egoals=(), count=False, fgoals=(), pgoals=()):
     quick = run.tier == Q
     run.assumptions += COMMON_ASSUMPTIONS
     for m in (models_q if quick else models_q + models_t):
@@ -150,6 +156,10 @@ def generic_check(run, models_q, models_t, jobs_q, jobs_t, rule, corpus=False, f
         jl += goal_jobs(run, 16, (1, 3, 8, 9) if quick else (1, 2, 3, 6, 8, 9))
         if not quick:
             jl += goal_jobs(run, 8)
+    if pgoals:
+        jl += par_goal_jobs(run, pgoals, 16)
+        if not quick:
+            jl += par_goal_jobs(run, pgoals, 8)
     if fgoals:
         jl += fault_goal_jobs(run, fgoals, 16)
         if not quick:
@@ -251,7 +261,7 @@ def c03(run):
          ("pardrops", ["map:kv16:collide:40:500:par", "set:k8t:collide:30:300:parset", "table:te24:zero:40:300:partable"])],
         [("drops2", ["map:kv200:collide:30:3000:wide", "map:kva64:max:20:2000:iter", "map:kv16:onegroup:14:3000:two"]),
          ("dropsg", ["map:kv16:collide:24:3000:wide", "set:k8t:zero:14:2000:setalg"], G)],
-        "every element id and allocator block is followed through every call: drops observed in each call = drops of the abstract machine; block ledger = layouts of the live tables", corpus=True, fgoals=("map", "set", "table"))
+        "every element id and allocator block is followed through every call: drops observed in each call = drops of the abstract machine; block ledger = layouts of the live tables", corpus=True, fgoals=("map", "set", "table"), pgoals=("map", "set", "table"))
 
 
 def c06(run):
@@ -310,7 +320,7 @@ def c10(run):
                        "set:k8t:collide:20:400:set:fault=30,fclass=drop"])],
         [("sel2", ["map:kv16:onegroup:12:3000:iter", "map:kv200:fewpos:60:3000:iter"]),
          ("selg", ["map:kv16:collide:40:3000:iter", "set:k8t:zero:30:2000:set"], G)],
-        "retain / extract_if / drain with random predicates (subsets) and early-drop points; predicate calls, yields and post-state validated", goals=True, sgoals=True, tgoals=True, fgoals=("map", "set", "table"))
+        "retain / extract_if / drain with random predicates (subsets) and early-drop points; predicate calls, yields and post-state validated", goals=True, sgoals=True, tgoals=True, fgoals=("map", "set", "table"), pgoals=("map", "set", "table"))
 
 
 def c11(run):
@@ -484,7 +494,9 @@ def c19(run):
         job(run, "par", ["map:kv16:collide:40:%d:par" % (600 * n), "map:k4v4:mixed:100:%d:par" % (300 * n)]),
         job(run, "parset", ["set:k8t:collide:30:%d:parset" % (500 * n), "table:te24:zero:40:%d:partable" % (400 * n)]),
     ]
+    jobs += par_goal_jobs(run, ("map", "set", "table"), 16)
     if not quick:
+        jobs += par_goal_jobs(run, ("map", "set", "table"), 8)
         jobs.append(job(run, "parg", ["map:kv16:collide:40:2000:par", "table:te24:fewpos:60:1500:partable"], backend="generic"))
         jobs.append(job(run, "par2", ["map:kv200:seq:200:1500:par", "set:k1:mixed:200:1500:parset"]))
     run.traces_parallel(jobs)
